@@ -77,6 +77,9 @@ class StubBasis:
     def default_parameters(self):
         return dict(self.params)
 
+    def interpolate(self, w):
+        return ("interpolated-by", self.tag, id(w))
+
 
 class FormStub:
     """uninterpreted integrand: result[k,q] = form(<indices of the argument functions>, k, q)."""
@@ -162,12 +165,15 @@ def coo_bilinear(ctx):
             vb = ub if same else StubBasis(c, "v", nt, nq)
             form = FormStub(nt, nq)
             bf = BF.BilinearForm(form)
+            cvec = np.arange(5.0)
+            kw = dict(c=cvec, s=2.5, idx=(0, 1))
             with sarr.mode_i([BF]):
                 if same:
-                    indices, data, shape, lshape = bf._assemble(ub)
+                    indices, data, shape, lshape = bf._assemble(ub, **kw)
                 else:
-                    indices, data, shape, lshape = bf._assemble(ub, vb)
+                    indices, data, shape, lshape = bf._assemble(ub, vb, **kw)
             pre = "coo/bilinear/%s" % ("same-basis" if same else "two-bases")
+            want_w = dict(ub.default_parameters(), c=("interpolated-by", "u", id(cvec)), s=2.5, idx=(0, 1))
             Nu, Nv, NT = ub.Nbfun.t, vb.Nbfun.t, nt.t
             size = tm.mul(tm.mul(Nu, Nv), NT)
             ctx.prove(pre + "/shapes", fn, tm.and_(tm.eq(sarr._t(indices.shape[0]), C(2)), tm.eq(sarr._t(indices.shape[1]), size),
@@ -205,8 +211,10 @@ def coo_bilinear(ctx):
             ws = [cl[1] for cl in form.calls]
             ctx.fact(pre + "/argument-order", fk, tags == {("u", vb.tag)}, "form called with argument tags %s" % tags,
                      clause="form(*ubasis.basis[j], *vbasis.basis[i], w): trial function first, test function second", backend="symbolic-execution")
-            ctx.fact(pre + "/params", fn, all(w == ub.default_parameters() for w in ws) and len(ws) > 0, "w = %s" % ws[:1],
-                     clause="w == ubasis.default_parameters() overlaid with normalised kwargs (none here)", backend="symbolic-execution")
+            ctx.fact(pre + "/params", fn, all(w == want_w for w in ws) and len(ws) > 0, "w = %s, expected %s" % (ws[:1], want_w),
+                     clause="w == ubasis.default_parameters() overlaid with the kwargs normalised against the SAME basis (ubasis) that supplies dx: "
+                            "coefficient vectors are interpolated by ubasis, numbers and tuples pass through",
+                     backend="symbolic-execution", replay=dict(kind="coo", form="bilinear", clause="params"))
     # raises on quadrature mismatch
     with sarr.index_context() as c:
         nt, nq = _ctx_common(c)
@@ -333,4 +341,14 @@ def standin_assembly(ctx):
 
 
 UNITS["standin/assembly"] = standin_assembly
+
+
+def _threads():
+    # the threaded path of BilinearForm._assemble must produce the same triplets (contract shared with C16)
+    from props import C16
+    for nu, nv in ((2, 1), (2, 3)):
+        UNITS["threads/Nu%dNv%d" % (nu, nv)] = C16.threaded_unit(nu, nv)
+
+
+_threads()
 HEAVY_FIRST = ["standin/assembly"]
